@@ -509,6 +509,14 @@ def run(rep, tier_, rng):
             stats["nonfinite"] += 1
             rep.violation("C26 quad returned %r for %s" % (y, describe(spec)), dict(call, clause="nonfinite")); continue
         call["result"] = str(y)
+        # size class of the error (search side, untrusted): lets a known finding about the optimistic extrapolated error
+        # estimate be limited to results that are right to 30 bits, so that a grossly wrong half-line integral is still reported
+        try:
+            refv = cert.approx(case["I"], 160)
+            relv = abs((mp.mpf(y) - refv) / refv) if refv != 0 else None
+            call["error_size"] = "unknown" if relv is None else ("rel<2^-30" if relv < mp.mpf(2) ** -30 else "rel>=2^-30")
+        except Exception:
+            call["error_size"] = "unknown"
         key = json.dumps([spec, method, prec], sort_keys=True)
         if variant.endswith("+rerun"):
             if first.get(key) == yq:
@@ -551,7 +559,7 @@ def replay(rep, path):
         y = do_quad(mp, case, r["method"], r["prec"], timeout=600)
         cid = "replay"
         yq = calcb.frac_of(y)
-        call = {k: r[k] for k in ("fn", "method", "regime", "kclass", "prec", "spec", "variant") if k in r}
+        call = {k: r[k] for k in ("fn", "method", "regime", "kclass", "prec", "spec", "variant", "error_size") if k in r}
         if yq is None:
             rep.violation("C26 quad returned %r" % (y,), dict(call, clause="nonfinite"))
             return [], {cid: call}
